@@ -134,16 +134,20 @@ def is_known(prop, f, known):
 
 
 def write_replay(prop, trace, finding, tag):
+    """the chain of ancestor lines (parent pointers) from the run's instantiate line to the offending line"""
     os.makedirs(REPLAYS, exist_ok=True)
     lines = open(trace).read().splitlines()
     i = finding["i"]
-    # the run containing line i: from its instantiate line
-    start = i
-    while start > 1 and json.loads(lines[start - 1])["call"]["m"] != "instantiate":
-        start -= 1
+    chain = []
+    k = i
+    while k > 0:
+        e = json.loads(lines[k - 1])
+        chain.append(lines[k - 1])
+        k = e["parent"]
+    chain.reverse()
     path = os.path.join(REPLAYS, f"{prop}-{tag}-line{i}.ndjson")
     with open(path, "w") as f:
-        for ln in lines[start - 1:i]:
+        for ln in chain:
             f.write(ln + "\n")
         f.write(json.dumps({"finding": finding, "property": prop}) + "\n")
     return path
@@ -185,3 +189,226 @@ def sample_lines(trace, k=2):
                 if len(out) >= k:
                     break
     return out
+
+
+# ---------------------------------------------------------------------------------------------
+# model checking and TLC-generated tests
+MC_DIR = os.path.join(SPEC, "mc")
+CACHE = os.path.join(WORK, "cache")
+STAT_RE = re.compile(r"(\d+) states generated, (\d+) distinct states found")
+
+
+def spec_hash(cfg):
+    import hashlib
+    h = hashlib.sha256()
+    for fn in sorted(os.listdir(SPEC)):
+        if fn.endswith(".tla"):
+            h.update(open(os.path.join(SPEC, fn), "rb").read())
+    h.update(open(cfg, "rb").read())
+    return h.hexdigest()[:16]
+
+
+def model_check(name, workdir, workers=12, timeout=1500):
+    cfg = os.path.join(MC_DIR, f"MC_{name}.cfg")
+    rc, out, wall = tlc(os.path.join(SPEC, "MilkyWay.tla"), cfg, workdir, workers=workers, timeout=timeout, xmx="12g")
+    m = STAT_RE.search(out)
+    if "Model checking completed. No error has been found." not in out or not m:
+        bad = re.search(r"Invariant (\S+) is violated|Action property (\S+) is violated", out)
+        raise ToolError(f"model MC_{name}: the SPECIFICATION itself does not satisfy "
+                        f"{bad.group(0) if bad else 'its properties / did not finish'} - this is a defect of the model, not of the code\n" + out[-2500:])
+    log(f"[mc] MC_{name}: {m.group(2)} distinct states, {m.group(1)} transitions, all invariants and action properties hold ({wall:.1f}s)")
+    return {"model": f"MC_{name}", "states": int(m.group(2)), "transitions": int(m.group(1)), "wall_s": round(wall, 1)}
+
+
+def reach_check(name, workdir):
+    """vacuity guard: the negated reachability predicate must be VIOLATED (i.e. the situation is reachable)"""
+    cfg = os.path.join(MC_DIR, f"REACH_{name}.cfg")
+    rc, out, wall = tlc(os.path.join(SPEC, "MilkyWay.tla"), cfg, workdir, workers=8, timeout=600)
+    if f"Invariant Reach_{name} is violated" not in out:
+        raise ToolError(f"vacuity: the situation Reach_{name} is not reachable in the bounded model\n" + out[-1500:])
+    log(f"[mc] reachability witness Reach_{name} found ({wall:.1f}s)")
+    return True
+
+
+def edges_for(name, workdir, timeout=3000):
+    """TLC-generated tests of MC_<name>: one EDGE line per transition. A pure function of the specification,
+    hence cached under work/cache keyed by the hash of spec/*.tla and the cfg."""
+    cfg = os.path.join(MC_DIR, f"MC_{name}_emit.cfg")
+    os.makedirs(CACHE, exist_ok=True)
+    path = os.path.join(CACHE, f"{name}-{spec_hash(cfg)}.edges")
+    if os.path.exists(path) and os.path.getsize(path) > 0:
+        return path, 0.0
+    md = os.path.join(workdir, "md-emit-" + name)
+    shutil.rmtree(md, ignore_errors=True)
+    e = dict(os.environ)
+    e["JAVA_TOOL_OPTIONS"] = "-Xss1g -Xmx8g"
+    t0 = time.time()
+    tmp = path + ".tmp"
+    with open(tmp, "w") as f:
+        try:
+            p = subprocess.run(["tlc", "-workers", "1", "-metadir", md, "-cleanup", "-noGenerateSpecTE", "-config", cfg,
+                                os.path.join(SPEC, "MilkyWay.tla")], cwd=workdir, env=e, stdout=f, stderr=subprocess.STDOUT, timeout=timeout)
+        except subprocess.TimeoutExpired:
+            raise ToolError(f"timeout generating tests from MC_{name}")
+    shutil.rmtree(md, ignore_errors=True)
+    tail = subprocess.run(["tail", "-n", "12", tmp], stdout=subprocess.PIPE, text=True).stdout
+    if "Model checking completed. No error has been found." not in tail:
+        raise ToolError(f"test generation from MC_{name} failed\n" + tail)
+    os.rename(tmp, path)
+    log(f"[emit] MC_{name}: tests generated in {time.time()-t0:.1f}s -> {os.path.basename(path)}")
+    return path, time.time() - t0
+
+
+def replay_edges(binp, name, workdir, sample_lines_target, seed):
+    path, _ = edges_for(name, workdir)
+    nedges = int(subprocess.run(["grep", "-c", "^\"EDGE ", path], stdout=subprocess.PIPE, text=True).stdout.strip() or 0)
+    if nedges == 0:
+        raise ToolError(f"no tests in {path}")
+    sample_mod = max(1, nedges // max(1, sample_lines_target))
+    out = os.path.join(workdir, f"tree-{name}.ndjson")
+    t0 = time.time()
+    txt = mwh(binp, ["tree", path, out, sample_mod, seed], timeout=3000)
+    st = json.loads(txt.strip().splitlines()[-1])
+    st["model"] = f"MC_{name}"
+    st["wall_s"] = round(time.time() - t0, 1)
+    if st["executed"] != nedges:
+        raise ToolError(f"replay executed {st['executed']} of {nedges} transitions of MC_{name}")
+    log(f"[replay] MC_{name}: {nedges} TLC-generated transitions executed on the real code in {st['wall_s']}s, "
+        f"{st['mismatches']} digest mismatches, {st['lines']} lines kept for validation")
+    return out, st
+
+
+# ---------------------------------------------------------------------------------------------
+# per-property plans
+FLOW = dict(mc_q=["flow_q"], mc_t=["flow_t", "flow_treasury_t"], emit_q=["flow_q"], emit_t=["flow_t"])
+IBC = dict(mc_q=["ibc_q"], mc_t=["ibc_t"], emit_q=["ibc_q"], emit_t=["ibc_t"])
+GATE = dict(mc_q=["gate_q"], mc_t=["gate_t"], emit_q=["gate_q"], emit_t=["gate_t"])
+
+
+def plan(mc_q, mc_t, emit_q, emit_t, walks_q, walks_t, reach=(), scen=()):
+    return dict(mc={"quick": mc_q, "thorough": mc_t}, emit={"quick": emit_q, "thorough": emit_t},
+                walks={"quick": walks_q, "thorough": walks_t}, reach=list(reach), scen=list(scen))
+
+
+W_Q = [("honest", 8, 60), ("chaos", 10, 60), ("admin", 6, 60)]
+W_T = [("honest", 120, 70), ("chaos", 160, 70), ("admin", 80, 70)]
+PLANS = {
+    "C01": plan(["flow_q", "ibc_q"], ["flow_t", "ibc_t", "flow_treasury_t"], ["flow_q"], ["flow_t", "ibc_t"], W_Q, W_T, reach=["HonestOutstanding"]),
+    "C02": plan(["flow_q", "ibc_q"], ["flow_t", "ibc_t", "flow_treasury_t"], ["flow_treasury_q"], ["flow_t", "ibc_t", "flow_treasury_t"], W_Q, W_T, reach=["Received"]),
+    "C03": plan(["flow_q", "ibc_q"], ["flow_t", "ibc_t"], ["flow_q"], ["flow_t", "ibc_t"], W_Q, W_T),
+    "C05": plan(["flow_q"], ["flow_t"], ["flow_q"], ["flow_t"], W_Q, W_T, reach=["Received"]),
+    "C06": plan(["flow_q"], ["flow_t"], ["flow_q"], ["flow_t"], W_Q, W_T, reach=["Received"]),
+    "C07": plan(["ibc_q"], ["ibc_t"], ["ibc_q"], ["ibc_t"], W_Q, W_T, reach=["Refundable"]),
+    "C08": plan(["gate_q"], ["gate_t"], ["gate_q"], ["gate_t"], W_Q, W_T),
+    "C10": plan(["gate_q"], ["gate_t"], ["gate_q"], ["gate_t"], W_Q, W_T),
+    "C11": plan(["flow_q", "flow_treasury_q"], ["flow_t", "flow_treasury_t"], ["flow_treasury_q"], ["flow_t", "flow_treasury_t"], W_Q, W_T),
+    "C15": plan(["flow_q", "flow_treasury_q"], ["flow_t", "flow_treasury_t"], ["flow_q", "flow_treasury_q"], ["flow_t", "flow_treasury_t"], W_Q, W_T),
+}
+LEVEL = "model_checking"
+
+
+def run_property(prop, tier, seed):
+    if prop not in PLANS:
+        raise ToolError(f"no plan for {prop}")
+    pl = PLANS[prop]
+    wd = os.path.join(WORK, f"{prop}-{tier}")
+    shutil.rmtree(wd, ignore_errors=True)
+    os.makedirs(wd)
+    t0 = time.time()
+    binp = build(False)
+    known = load_known()
+    # 1. the design satisfies the property (bounded, exhaustive)
+    mcs = [model_check(n, wd) for n in pl["mc"][tier]]
+    for r in pl["reach"]:
+        reach_check(r, wd)
+    # 2. TLC-generated transitions replayed through the real code
+    traces = []
+    replays = []
+    for n in pl["emit"][tier]:
+        out, st = replay_edges(binp, n, wd, 1500 if tier == "quick" else 20000, seed)
+        traces.append((out, f"tree-{n}"))
+        replays.append(st)
+    # 3. drivers on the real code
+    nruns = 0
+    for mode, runs, steps in pl["walks"][tier]:
+        out = os.path.join(wd, f"walk-{mode}.ndjson")
+        mwh(binp, ["walk", out, seed, runs, steps, mode])
+        traces.append((out, f"walk-{mode}"))
+        nruns += runs
+    # 4. every recorded transaction against the specification
+    total_lines = 0
+    mine, others, divergences = [], 0, 0
+    first_replay = None
+    for path, tag in traces:
+        n, findings = validate_trace(path, wd)
+        total_lines += n
+        for f in findings:
+            if prop in f.get("props", []):
+                k = is_known(prop, f, known)
+                if k:
+                    f["known"] = k["id"]
+                mine.append((f, path, tag))
+            elif f["kind"] == "unexpected_failure" and not f.get("props"):
+                divergences += 1
+            else:
+                others += 1
+    new = [(f, p, t) for (f, p, t) in mine if "known" not in f]
+    for kid in sorted({f["known"] for (f, _, _) in mine if "known" in f}):
+        k = [k for k in known if k["id"] == kid][0]
+        print(f"KNOWN-FINDING: property={prop} {k['what']}")
+    rc = 0
+    if new:
+        f, path, tag = new[0]
+        first_replay = write_replay(prop, path, f, f"{tier}-{seed}-{tag}")
+        for (g, _, _) in new[:8]:
+            log("finding:", json.dumps(g))
+        print(f"VIOLATION property={prop} replay={first_replay}")
+        rc = 1
+    samples = sample_lines(traces[-1][0], 2) if traces else []
+    for st in replays[:1]:
+        samples.append({"tlc_generated_test_stats": {k: st[k] for k in ("model", "edges", "executed", "ok", "refused", "mismatches", "max_depth")}})
+    ev = {
+        "property_id": prop, "tier": tier, "seed": seed, "level": LEVEL,
+        "coverage": {
+            "states": sum(m["states"] for m in mcs), "transitions": sum(m["transitions"] for m in mcs),
+            "traces_validated_against_impl": nruns + len(replays),
+            "samples": samples,
+            "models": mcs, "exhaustive": True,
+            "tlc_generated_transitions_replayed_on_impl": sum(s["executed"] for s in replays),
+            "replay_digest_mismatches": sum(s["mismatches"] for s in replays),
+            "replay_by_action": {s["model"]: s["by_kind"] for s in replays},
+            "trace_lines_validated": total_lines,
+            "findings_this_property": len(mine), "findings_known": len(mine) - len(new),
+            "findings_other_properties": others, "divergences_not_attributed": divergences,
+            "checker_cmd": "tlc spec/MilkyWay.tla (MC_*.cfg) ; tlc spec/Trace.tla (TRACE=<ndjson>) ; harness/mwh tree|walk",
+        },
+        "assumptions": ["the chain modules (bank, token factory, IBC transfer, ibc-hooks) behave as transcribed in spec/Chain.tla and harness/src/sim.rs",
+                        "bounds of the MC_* configurations (small scope); TLC integers are 32 bit so amounts stay below 3000"],
+        "wall_s": round(time.time() - t0, 1), "violations": len(new),
+    }
+    os.makedirs(EVID, exist_ok=True)
+    json.dump(ev, open(os.path.join(EVID, f"{prop}.json"), "w"), indent=1)
+    log(f"[{prop}] {tier}: {'VIOLATION' if rc else 'held'}; {ev['coverage']['states']} model states, "
+        f"{ev['coverage']['tlc_generated_transitions_replayed_on_impl']} transitions replayed, {total_lines} real steps validated, wall {ev['wall_s']}s")
+    return rc
+
+
+def main():
+    a = sys.argv[1:]
+    if len(a) < 2:
+        print(__doc__)
+        return 2
+    prop = a[0]
+    try:
+        if a[1] == "--replay":
+            return replay(prop, a[2])
+        tier = a[1]
+        seed = int(os.environ.get("VERIF_SEED", "1"))
+        return run_property(prop, tier, seed)
+    except ToolError as e:
+        log("TOOL ERROR:", e)
+        return 2
+
+
+if __name__ == "__main__":
+    sys.exit(main())
